@@ -2219,17 +2219,8 @@ func applyParsedTagRules(schema core.ZodSchema, fieldInfo tagparser.FieldInfo) c
 		case "time":
 			// Special handling for time.Time fields
 			schema = Time()
-		case "positive":
-			schema = applyPositiveModifier(schema)
-		case "negative":
-			schema = applyNegativeModifier(schema)
-		case "finite":
-			if floatSchema, ok := schema.(*ZodFloatTyped[float64, float64]); ok {
-				schema = floatSchema.Finite()
-			}
-			if float32Schema, ok := schema.(*ZodFloatTyped[float32, float32]); ok {
-				schema = float32Schema.Finite()
-			}
+		case "positive", "negative", "finite":
+			schema = applyNumericTagRule(schema, rule.Name, "")
 		case "nonempty":
 			if stringSchema, ok := schema.(*ZodString[string]); ok {
 				schema = stringSchema.Min(1)
@@ -2311,38 +2302,115 @@ func applyNilableModifier(schema core.ZodSchema) core.ZodSchema {
 	return schema
 }
 
-// applyPositiveModifier applies positive constraint to numeric types
-func applyPositiveModifier(schema core.ZodSchema) core.ZodSchema {
-	switch s := schema.(type) {
-	case *ZodIntegerTyped[int, int]:
-		return s.Positive()
-	case *ZodIntegerTyped[int64, int64]:
-		return s.Positive()
-	case *ZodFloatTyped[float64, float64]:
-		return s.Positive()
-	case *ZodFloatTyped[float32, float32]:
-		return s.Positive()
-	}
-	return schema
+// numericTagSchema is implemented by the generic numeric schema types themselves
+// (ZodIntegerTyped[T, R] and ZodFloatTyped[T, R]), so a numeric tag rule reaches
+// every instantiation: any integer width, signed or unsigned, float32 and
+// float64, value fields (R = T) and pointer fields (R = *T) alike.
+type numericTagSchema interface {
+	applyNumericTagRule(rule, param string) core.ZodSchema
 }
 
-// applyNegativeModifier applies negative constraint to numeric types
-func applyNegativeModifier(schema core.ZodSchema) core.ZodSchema {
-	switch s := schema.(type) {
-	case *ZodIntegerTyped[int, int]:
-		return s.Negative()
-	case *ZodIntegerTyped[int64, int64]:
-		return s.Negative()
-	case *ZodFloatTyped[float64, float64]:
-		return s.Negative()
-	case *ZodFloatTyped[float32, float32]:
-		return s.Negative()
+// parseTagInteger reads the parameter of a rule on an integer field without
+// losing precision: an integer literal stays an int64 (a uint64 above
+// math.MaxInt64), anything else is a float64. The numeric checks compare
+// mixed kinds exactly.
+func parseTagInteger(param string) (any, bool) {
+	if i, err := strconv.ParseInt(param, 10, 64); err == nil {
+		return i, true
+	}
+	if u, err := strconv.ParseUint(param, 10, 64); err == nil {
+		return u, true
+	}
+	if f, err := strconv.ParseFloat(param, 64); err == nil {
+		return f, true
+	}
+	return nil, false
+}
+
+// numericTagCheck builds the check of a numeric comparison rule; nil when
+// rule is not one.
+func numericTagCheck(rule string, bound any) core.ZodCheck {
+	switch rule {
+	case "min", "gte":
+		return checks.Gte(bound)
+	case "max", "lte":
+		return checks.Lte(bound)
+	case "gt":
+		return checks.Gt(bound)
+	case "lt":
+		return checks.Lt(bound)
+	}
+	return nil
+}
+
+func (z *ZodIntegerTyped[T, R]) applyNumericTagRule(rule, param string) core.ZodSchema {
+	switch rule {
+	case "positive":
+		return z.Positive()
+	case "negative":
+		return z.Negative()
+	case "finite":
+		return z // every integer is finite
+	}
+	bound, ok := parseTagInteger(param)
+	if !ok {
+		return z
+	}
+	if rule == "multipleof" {
+		switch b := bound.(type) {
+		case int64:
+			return z.MultipleOf(b)
+		case float64:
+			return z.MultipleOf(int64(b))
+		}
+		return z
+	}
+	if check := numericTagCheck(rule, bound); check != nil {
+		return z.withCheck(check)
+	}
+	return z
+}
+
+func (z *ZodFloatTyped[T, R]) applyNumericTagRule(rule, param string) core.ZodSchema {
+	switch rule {
+	case "positive":
+		return z.Positive()
+	case "negative":
+		return z.Negative()
+	case "finite":
+		return z.Finite()
+	}
+	bound, err := strconv.ParseFloat(param, 64)
+	if err != nil {
+		return z
+	}
+	if rule == "multipleof" {
+		return z.MultipleOf(bound)
+	}
+	if check := numericTagCheck(rule, bound); check != nil {
+		return z.withCheck(check)
+	}
+	return z
+}
+
+// applyNumericTagRule applies a numeric rule to any numeric schema and leaves
+// other schemas unchanged.
+func applyNumericTagRule(schema core.ZodSchema, rule, param string) core.ZodSchema {
+	if n, ok := schema.(numericTagSchema); ok {
+		return n.applyNumericTagRule(rule, param)
 	}
 	return schema
 }
 
 // applyParameterizedRule applies rules that have parameters
 func applyParameterizedRule(schema core.ZodSchema, ruleName, param string) core.ZodSchema {
+	switch ruleName {
+	case "min", "max", "gt", "gte", "lt", "lte", "multipleof":
+		if n, ok := schema.(numericTagSchema); ok {
+			return n.applyNumericTagRule(ruleName, param)
+		}
+	}
+
 	switch ruleName {
 	case "min":
 		if value, err := strconv.Atoi(param); err == nil {
@@ -2364,22 +2432,6 @@ func applyParameterizedRule(schema core.ZodSchema, ruleName, param string) core.
 				schema = sliceAnySchema.Length(value)
 			}
 		}
-	case "gt":
-		if value, err := strconv.ParseFloat(param, 64); err == nil {
-			schema = applyGtConstraint(schema, value)
-		}
-	case "gte":
-		if value, err := strconv.ParseFloat(param, 64); err == nil {
-			schema = applyGteConstraint(schema, value)
-		}
-	case "lt":
-		if value, err := strconv.ParseFloat(param, 64); err == nil {
-			schema = applyLtConstraint(schema, value)
-		}
-	case "lte":
-		if value, err := strconv.ParseFloat(param, 64); err == nil {
-			schema = applyLteConstraint(schema, value)
-		}
 	case "regex":
 		if stringSchema, ok := schema.(*ZodString[string]); ok {
 			schema = stringSchema.RegexString(param)
@@ -2400,10 +2452,6 @@ func applyParameterizedRule(schema core.ZodSchema, ruleName, param string) core.
 		schema = applyDefaultValue(schema, param)
 	case "prefault":
 		schema = applyPrefaultValue(schema, param)
-	case "multipleof":
-		if value, err := strconv.ParseFloat(param, 64); err == nil {
-			schema = applyMultipleOfConstraint(schema, value)
-		}
 	}
 
 	return schema
@@ -2414,14 +2462,6 @@ func applyMinConstraint(schema core.ZodSchema, value int) core.ZodSchema {
 	switch s := schema.(type) {
 	case *ZodString[string]:
 		return s.Min(value)
-	case *ZodIntegerTyped[int, int]:
-		return s.Min(int64(value))
-	case *ZodIntegerTyped[int64, int64]:
-		return s.Min(int64(value))
-	case *ZodFloatTyped[float64, float64]:
-		return s.Min(float64(value))
-	case *ZodFloatTyped[float32, float32]:
-		return s.Min(float64(value))
 	case *ZodSlice[string, []string]:
 		return s.Min(value)
 	case *ZodSlice[int, []int]:
@@ -2442,14 +2482,6 @@ func applyMaxConstraint(schema core.ZodSchema, value int) core.ZodSchema {
 	switch s := schema.(type) {
 	case *ZodString[string]:
 		return s.Max(value)
-	case *ZodIntegerTyped[int, int]:
-		return s.Max(int64(value))
-	case *ZodIntegerTyped[int64, int64]:
-		return s.Max(int64(value))
-	case *ZodFloatTyped[float64, float64]:
-		return s.Max(float64(value))
-	case *ZodFloatTyped[float32, float32]:
-		return s.Max(float64(value))
 	case *ZodSlice[string, []string]:
 		return s.Max(value)
 	case *ZodSlice[int, []int]:
@@ -2462,62 +2494,6 @@ func applyMaxConstraint(schema core.ZodSchema, value int) core.ZodSchema {
 		return s.Max(value)
 	case *ZodMap[map[string]any, map[string]any]:
 		return s.Max(value)
-	}
-	return schema
-}
-
-func applyGtConstraint(schema core.ZodSchema, value float64) core.ZodSchema {
-	switch s := schema.(type) {
-	case *ZodIntegerTyped[int, int]:
-		return s.Gt(int64(value))
-	case *ZodIntegerTyped[int64, int64]:
-		return s.Gt(int64(value))
-	case *ZodFloatTyped[float64, float64]:
-		return s.Gt(value)
-	case *ZodFloatTyped[float32, float32]:
-		return s.Gt(value)
-	}
-	return schema
-}
-
-func applyGteConstraint(schema core.ZodSchema, value float64) core.ZodSchema {
-	switch s := schema.(type) {
-	case *ZodIntegerTyped[int, int]:
-		return s.Gte(int64(value))
-	case *ZodIntegerTyped[int64, int64]:
-		return s.Gte(int64(value))
-	case *ZodFloatTyped[float64, float64]:
-		return s.Gte(value)
-	case *ZodFloatTyped[float32, float32]:
-		return s.Gte(value)
-	}
-	return schema
-}
-
-func applyLtConstraint(schema core.ZodSchema, value float64) core.ZodSchema {
-	switch s := schema.(type) {
-	case *ZodIntegerTyped[int, int]:
-		return s.Lt(int64(value))
-	case *ZodIntegerTyped[int64, int64]:
-		return s.Lt(int64(value))
-	case *ZodFloatTyped[float64, float64]:
-		return s.Lt(value)
-	case *ZodFloatTyped[float32, float32]:
-		return s.Lt(value)
-	}
-	return schema
-}
-
-func applyLteConstraint(schema core.ZodSchema, value float64) core.ZodSchema {
-	switch s := schema.(type) {
-	case *ZodIntegerTyped[int, int]:
-		return s.Lte(int64(value))
-	case *ZodIntegerTyped[int64, int64]:
-		return s.Lte(int64(value))
-	case *ZodFloatTyped[float64, float64]:
-		return s.Lte(value)
-	case *ZodFloatTyped[float32, float32]:
-		return s.Lte(value)
 	}
 	return schema
 }
@@ -2555,20 +2531,6 @@ func applyLiteralConstraint(schema core.ZodSchema, value string) core.ZodSchema 
 		if boolVal, err := strconv.ParseBool(value); err == nil {
 			return Literal(boolVal)
 		}
-	}
-	return schema
-}
-
-func applyMultipleOfConstraint(schema core.ZodSchema, value float64) core.ZodSchema {
-	switch s := schema.(type) {
-	case *ZodIntegerTyped[int, int]:
-		return s.MultipleOf(int64(value))
-	case *ZodIntegerTyped[int64, int64]:
-		return s.MultipleOf(int64(value))
-	case *ZodFloatTyped[float64, float64]:
-		return s.MultipleOf(value)
-	case *ZodFloatTyped[float32, float32]:
-		return s.MultipleOf(value)
 	}
 	return schema
 }
